@@ -3,12 +3,19 @@
      tnil = 1: T is nil in Go (then |T| = 0);  u, pmf, cdf, lo, hi, step: float64 bit patterns;
      status 0 = every call returned, 2 = some call panicked.
    The whole distribution for (N1,N2,T) is computed once (Model.Udist.mass_table), then
-   every u of the line is compared.  Tolerance on probabilities: 1e-10 absolute (DESIGN 7, C02). *)
+   every u of the line is compared.  Tolerance on probabilities: 1e-10 absolute (DESIGN 7, C02); exact
+   (tolerance 0) where the property states the value outright, see tol_pmf_at / tol_cdf_at. *)
 From Coq Require Import Qround.
 From MM Require Import Base.Num Base.GEComb Model.GEChoose Model.Udist.
 Local Open Scope Z_scope.
 
 Definition tol_prob : Q := 1 # 10000000000.
+(* where the property states the value outright (CDF 0 below zero and 1 from N1*N2 upward; no mass outside
+   0 .. N1*N2) the comparison is exact: tolerance 0 *)
+Definition tol_pmf_at (n1 n2 : nat) (u : Q) : Q :=
+  if Qltb u 0 || Qleb ((1 # 2) + QN (n1 * n2)) u then 0%Q else tol_prob.
+Definition tol_cdf_at (n1 n2 : nat) (u : Q) : Q :=
+  if Qltb u 0 || Qleb (QN (n1 * n2)) u then 0%Q else tol_prob.
 
 Definition p_triple : parser (Q * xreal * xreal) :=
   do u <- pQ; do p <- pX; do c <- pX; pret (u, p, c).
@@ -37,9 +44,9 @@ Fixpoint cmp_us (n1 n2 : nat) (T : list nat) (tbl cs : list Z) (tot : Z)
   | [] => None
   | (u, op, oc) :: rest =>
       let ep := fast_pmf n1 n2 T tbl tot u in
-      if negb (xwithin tol_prob (XFin ep) op) then Some (i, 0, ep) else
+      if negb (xwithin (tol_pmf_at n1 n2 u) (XFin ep) op) then Some (i, 0, ep) else
       let ec := fast_cdf n1 n2 T cs tot u in
-      if negb (xwithin tol_prob (XFin ec) oc) then Some (i, 1, ec) else
+      if negb (xwithin (tol_cdf_at n1 n2 u) (XFin ec) oc) then Some (i, 1, ec) else
       cmp_us n1 n2 T tbl cs tot rest (i + 1)
   end.
 
